@@ -9,9 +9,11 @@
   harness lists a private temp directory and /proc/self/fd and the numbers must equal the model's; after closing what was
   returned both must be zero (judged on the implementation).
 
-  Theorems: in every reachable state every buffer that is not closed is reachable from an open handle
+  Theorems: in every reachable state every buffer that is not closed for good belongs to a handle the caller holds
   (`C15_owned`), and closing the handles — in any order, any number of times — leaves no temp file and no descriptor
-  (`C15_close`).
+  (`C15_close`). Close is NOT terminal for a buffer that has not spilled yet (diskbuffer.Close only deals with the file
+  part): bytes written into a builder after its Close may still spill, and the next Close removes that file — histories
+  with Close, Write, Close are part of the quantifier (seed C15-j).
 -/
 import Gowarc.Model.Resources
 namespace Gowarc.Props.C15
@@ -19,18 +21,35 @@ open Gowarc Gowarc.RState
 
 @[reducible] def Owned (s : RState) : Prop :=
   ∀ (i : Nat) (b : RBuf), s.bufs[i]? = some b → b.closed = false →
-    ∃ (h : Nat) (hd : RHandle), s.handles[h]? = some hd ∧ hd.isOpen = true ∧ i ∈ hd.bufs
+    ∃ (h : Nat) (hd : RHandle), s.handles[h]? = some hd ∧ i ∈ hd.bufs
 
 def Closed (hd : RHandle) : Prop := hd.isOpen = false ∧ hd.fd = false
 
+theorem shut_shut (b : RBuf) : b.shut.shut = b.shut := by
+  unfold RBuf.shut; split <;> simp_all
+
+theorem shut_noFile (b : RBuf) : b.shut.hasFile = false := by
+  unfold RBuf.shut RBuf.hasFile
+  split
+  · simp
+  · rename_i h; simp only [Bool.and_eq_false_imp, Bool.not_eq_eq_eq_not, Bool.not_true, decide_eq_false_iff_not]; intro _; exact h
+
+theorem shut_keeps_noFile (b : RBuf) (h : b.hasFile = false) : b.shut.hasFile = false := shut_noFile b
+
+theorem shut_open (b : RBuf) (h : b.shut.closed = false) : b.shut = b := by
+  unfold RBuf.shut at h ⊢
+  split
+  · rename_i hs; simp [hs] at h
+  · rfl
+
 theorem closeBuf_get (bufs : List RBuf) (j i : Nat) :
-    (closeBuf bufs j)[i]? = (bufs[i]?).map (fun b => if j = i then { b with closed := true } else b) := by
+    (closeBuf bufs j)[i]? = (bufs[i]?).map (fun b => if j = i then b.shut else b) := by
   unfold closeBuf
   rw [List.getElem?_modify]
   cases bufs[i]? <;> simp
 
 theorem closeBufs_get (is : List Nat) (bufs : List RBuf) (i : Nat) :
-    (closeBufs bufs is)[i]? = (bufs[i]?).map (fun b => if i ∈ is then { b with closed := true } else b) := by
+    (closeBufs bufs is)[i]? = (bufs[i]?).map (fun b => if i ∈ is then b.shut else b) := by
   unfold closeBufs
   induction is generalizing bufs with
   | nil => simp
@@ -41,7 +60,10 @@ theorem closeBufs_get (is : List Nat) (bufs : List RBuf) (i : Nat) :
     | some b =>
       simp only [Option.map_some, Option.some.injEq]
       by_cases hj : j = i
-      · subst hj; simp
+      · subst hj
+        by_cases hr : j ∈ rest
+        · simp [hr, shut_shut]
+        · simp [hr]
       · have : i ≠ j := fun e => hj e.symm
         simp [hj, this]
 
@@ -55,13 +77,13 @@ theorem handles_append_get (hs : List RHandle) (n : RHandle) (h : Nat) (hd : RHa
 
 /-- adding a handle and leaving the buffers' closed flags alone keeps every buffer owned -/
 theorem owned_add_handle (s : RState) (n : RHandle) (bufs' : List RBuf) (h : Owned s)
-    (hb : ∀ i b', bufs'[i]? = some b' → b'.closed = false → (∃ b, s.bufs[i]? = some b ∧ b.closed = false) ∨ (n.isOpen = true ∧ i ∈ n.bufs)) :
+    (hb : ∀ i b', bufs'[i]? = some b' → b'.closed = false → (∃ b, s.bufs[i]? = some b ∧ b.closed = false) ∨ i ∈ n.bufs) :
     Owned ⟨bufs', s.handles ++ [n]⟩ := by
   intro i b' hg hc
-  rcases hb i b' hg hc with ⟨b, hgb, hcb⟩ | ⟨hn, hi⟩
-  · obtain ⟨hh, hd, hgh, ho, hm⟩ := h i b hgb hcb
-    exact ⟨hh, hd, handles_append_get _ _ _ _ hgh, ho, hm⟩
-  · exact ⟨s.handles.length, n, by simp, hn, hi⟩
+  rcases hb i b' hg hc with ⟨b, hgb, hcb⟩ | hi
+  · obtain ⟨hh, hd, hgh, hm⟩ := h i b hgb hcb
+    exact ⟨hh, hd, handles_append_get _ _ _ _ hgh, hm⟩
+  · exact ⟨s.handles.length, n, by simp, hi⟩
 
 theorem step_owned (s : RState) (op : ROp) (h : Owned s) : Owned (step s op) := by
   cases op with
@@ -75,12 +97,10 @@ theorem step_owned (s : RState) (op : ROp) (h : Owned s) : Owned (step s op) := 
         rcases Nat.lt_or_ge i (s.bufs ++ [(⟨max, 0, false⟩ : RBuf)]).length with hl | hl
         · simp at hl; omega
         · rw [List.getElem?_eq_none hl] at hg; cases hg
-      exact ⟨rfl, by simp [this]⟩
+      simp [this]
   | write hh n =>
     intro i b' hg hc
     -- sizes change, closed flags do not
-    have key : ∀ (is : List Nat) (bs : List RBuf), ∃ b, bs[i]? = some b ∧ b.closed = b'.closed →
-        True := fun _ _ => ⟨b', fun _ => trivial⟩
     have hpres : ∀ (is : List Nat) (bs : List RBuf) (b' : RBuf),
         (is.foldl (fun bs i => bs.modify i (fun b => { b with size := b.size + n })) bs)[i]? = some b' →
         ∃ b, bs[i]? = some b ∧ b.closed = b'.closed := by
@@ -120,7 +140,7 @@ theorem step_owned (s : RState) (op : ROp) (h : Owned s) : Owned (step s op) := 
           rcases Nat.lt_or_ge i (s.bufs ++ [(⟨max, n, false⟩ : RBuf)]).length with hl | hl
           · simp at hl; omega
           · rw [List.getElem?_eq_none hl] at hg; cases hg
-        exact ⟨rfl, by simp [this]⟩
+        simp [this]
   | derive =>
     apply owned_add_handle s _ _ h
     intro i b' hg hc; left; exact ⟨b', hg, hc⟩
@@ -131,11 +151,10 @@ theorem step_owned (s : RState) (op : ROp) (h : Owned s) : Owned (step s op) := 
     show Owned (if hasCloser = true then (⟨s.bufs, s.handles.modify hrev (fun hd => { hd with bufs := hd.bufs ++ s.handleBufs horig })⟩ : RState) else s)
     split
     · intro i b hg hc
-      obtain ⟨hh, hd, hgh, ho, hm⟩ := h i b hg hc
-      refine ⟨hh, if hrev = hh then { hd with bufs := hd.bufs ++ s.handleBufs horig } else hd, ?_, ?_, ?_⟩
+      obtain ⟨hh, hd, hgh, hm⟩ := h i b hg hc
+      refine ⟨hh, if hrev = hh then { hd with bufs := hd.bufs ++ s.handleBufs horig } else hd, ?_, ?_⟩
       · show (s.handles.modify hrev _)[hh]? = _
         rw [List.getElem?_modify, hgh]; rfl
-      · split <;> exact ho
       · split
         · simp [hm]
         · exact hm
@@ -149,21 +168,21 @@ theorem step_owned (s : RState) (op : ROp) (h : Owned s) : Owned (step s op) := 
     | some b =>
       rw [hb] at hg
       simp only [Option.map_some, Option.some.injEq] at hg
-      by_cases hin : i ∈ s.handleBufs hh
-      · simp only [hin, ↓reduceIte] at hg
-        rw [← hg] at hc; cases hc
-      · simp only [hin, ↓reduceIte] at hg
-        subst hg
-        obtain ⟨h2, hd, hgh, ho, hm⟩ := h i b hb hc
-        have hne : hh ≠ h2 := by
-          intro e; subst e
-          apply hin
-          unfold handleBufs; rw [hgh]; exact hm
-        refine ⟨h2, hd, ?_, ho, hm⟩
-        show (s.handles.modify hh _)[h2]? = _
-        rw [List.getElem?_modify, hgh]; simp [hne]
+      -- a buffer that is still not closed afterwards is the buffer it was
+      have hbb : b' = b := by
+        by_cases hin : i ∈ s.handleBufs hh
+        · simp only [hin, ↓reduceIte] at hg
+          rw [← hg] at hc ⊢
+          exact shut_open b hc
+        · simp only [hin, ↓reduceIte] at hg; exact hg.symm
+      subst hbb
+      obtain ⟨h2, hd, hgh, hm⟩ := h i b' hb hc
+      refine ⟨h2, if hh = h2 then { hd with fd := false, isOpen := false } else hd, ?_, ?_⟩
+      · show (s.handles.modify hh _)[h2]? = _
+        rw [List.getElem?_modify, hgh]; rfl
+      · split <;> exact hm
 
-/-- **every live buffer is reachable from an open handle**, in every reachable state -/
+/-- **every buffer that is not closed for good belongs to a handle the caller holds**, in every reachable state -/
 theorem C15_owned (ops : List ROp) : Owned (run RState.init ops) := by
   suffices ∀ s, Owned s → Owned (run s ops) from this _ (by intro i b hg; simp [RState.init] at hg)
   induction ops with
@@ -210,18 +229,59 @@ theorem run_close_closes (L : List Nat) (s : RState) (h : Nat) (hm : h ∈ L) (h
       · exact absurd e.symm ha
       · exact ih _ e (by rw [close_length]; exact hlt)
 
-/-- closing a list of handles keeps every buffer owned -/
-theorem run_close_owned (L : List Nat) (s : RState) (h : Owned s) : Owned (run s (L.map ROp.close)) := by
+/-- Close leaves the lists of buffers the handles own alone -/
+theorem close_handleBufs (s : RState) (a h : Nat) : (step s (.close a)).handleBufs h = s.handleBufs h := by
+  unfold handleBufs
+  show (match (s.handles.modify a _)[h]? with | some hd => hd.bufs | none => []) = _
+  rw [List.getElem?_modify]
+  cases s.handles[h]? with
+  | none => rfl
+  | some hd => by_cases e : a = h <;> simp [e]
+
+/-- closing handles: a buffer without temp file stays without one; a buffer of a handle in the list ends without one -/
+theorem run_close_noFile (L : List Nat) (s : RState) (i : Nat) (b : RBuf) (hg : s.bufs[i]? = some b)
+    (hcase : b.hasFile = false ∨ ∃ h ∈ L, i ∈ s.handleBufs h) :
+    ∃ b', (run s (L.map ROp.close)).bufs[i]? = some b' ∧ b'.hasFile = false := by
+  induction L generalizing s b with
+  | nil =>
+    rcases hcase with e | ⟨h, hm, _⟩
+    · exact ⟨b, hg, e⟩
+    · cases hm
+  | cons a rest ih =>
+    rw [List.map_cons, run]
+    have hstep : (step s (.close a)).bufs[i]? = some (if i ∈ s.handleBufs a then b.shut else b) := by
+      show (closeBufs s.bufs (s.handleBufs a))[i]? = _
+      rw [closeBufs_get, hg]; rfl
+    apply ih (step s (.close a)) _ hstep
+    by_cases hin : i ∈ s.handleBufs a
+    · left; simp only [hin, ↓reduceIte]; exact shut_noFile b
+    · simp only [hin, ↓reduceIte]
+      rcases hcase with e | ⟨h, hm, hi⟩
+      · exact Or.inl e
+      · rcases List.mem_cons.1 hm with e | e
+        · subst e; exact absurd hi hin
+        · exact Or.inr ⟨h, e, by rw [close_handleBufs]; exact hi⟩
+
+theorem run_close_bufs_length (L : List Nat) (s : RState) : (run s (L.map ROp.close)).bufs.length = s.bufs.length := by
   induction L generalizing s with
-  | nil => exact h
-  | cons a rest ih => rw [List.map_cons, run]; exact ih _ (step_owned s _ h)
+  | nil => rfl
+  | cons a rest ih =>
+    rw [List.map_cons, run, ih]
+    show (closeBufs s.bufs (s.handleBufs a)).length = _
+    unfold closeBufs
+    generalize s.handleBufs a = is
+    generalize s.bufs = bs
+    induction is generalizing bs with
+    | nil => rfl
+    | cons j r ih2 => rw [List.foldl_cons, ih2]; unfold closeBuf; rw [List.length_modify]
 
 /-- **after Close on everything the caller holds no temp file and no descriptor remains** -/
 theorem C15_close (s : RState) (h : Owned s) : (closeAll s).files = 0 ∧ (closeAll s).fds = 0 := by
   unfold closeAll
   have hlen := run_close_length (List.range s.handles.length) s
+  have hblen := run_close_bufs_length (List.range s.handles.length) s
   have hp := fun h hlt => run_close_closes (List.range s.handles.length) s h (List.mem_range.2 hlt) hlt
-  have ho := run_close_owned (List.range s.handles.length) s h
+  have hnf := run_close_noFile (List.range s.handles.length) s
   generalize run s ((List.range s.handles.length).map ROp.close) = t at *
   have hall : ∀ (hh : Nat) (hd : RHandle), t.handles[hh]? = some hd → hd.isOpen = false ∧ hd.fd = false := by
     intro hh hd hg
@@ -234,14 +294,25 @@ theorem C15_close (s : RState) (h : Owned s) : (closeAll s).files = 0 ∧ (close
   have hfiles : t.files = 0 := by
     unfold files
     rw [List.length_eq_zero_iff, List.filter_eq_nil_iff]
-    intro b hb
+    intro b' hb
     obtain ⟨i, hi, hgi⟩ := List.getElem_of_mem hb
-    have hg : t.bufs[i]? = some b := by rw [List.getElem?_eq_getElem hi, hgi]
-    cases hc : b.closed with
-    | true => simp [RBuf.hasFile, hc]
-    | false =>
-      obtain ⟨hh, hd, hgh, hopen, _⟩ := ho i b hg hc
-      rw [(hall hh hd hgh).1] at hopen; cases hopen
+    have hg' : t.bufs[i]? = some b' := by rw [List.getElem?_eq_getElem hi, hgi]
+    have his : i < s.bufs.length := by rw [← hblen]; exact hi
+    have hgs : s.bufs[i]? = some s.bufs[i] := List.getElem?_eq_getElem his
+    have hcase : (s.bufs[i]).hasFile = false ∨ ∃ hh ∈ List.range s.handles.length, i ∈ s.handleBufs hh := by
+      cases hc : (s.bufs[i]).closed with
+      | true => left; simp [RBuf.hasFile, hc]
+      | false =>
+        right
+        obtain ⟨hh, hd, hgh, hm⟩ := h i _ hgs hc
+        have hlt : hh < s.handles.length := by
+          rcases Nat.lt_or_ge hh s.handles.length with hl | hl
+          · exact hl
+          · rw [List.getElem?_eq_none hl] at hgh; cases hgh
+        exact ⟨hh, List.mem_range.2 hlt, by unfold handleBufs; rw [hgh]; exact hm⟩
+    obtain ⟨b'', hg'', hnf''⟩ := hnf i _ hgs hcase
+    rw [hg'] at hg''; cases hg''
+    simp [hnf'']
   refine ⟨hfiles, ?_⟩
   unfold fds
   rw [hfiles, Nat.zero_add, List.length_eq_zero_iff, List.filter_eq_nil_iff]
@@ -249,6 +320,12 @@ theorem C15_close (s : RState) (h : Owned s) : (closeAll s).files = 0 ∧ (close
   obtain ⟨i, hi, hgi⟩ := List.getElem_of_mem hm
   have := (hall i hd (by rw [List.getElem?_eq_getElem hi, hgi])).2
   simp [this]
+
+/-- **right after Close on a handle none of its buffers has a temp file** — in any state, whatever was written before
+    (also into a builder that had been closed earlier) -/
+theorem C15_close_releases (s : RState) (h i : Nat) (b : RBuf) (hg : s.bufs[i]? = some b) (hi : i ∈ s.handleBufs h) :
+    ∃ b', (step s (.close h)).bufs[i]? = some b' ∧ b'.hasFile = false :=
+  run_close_noFile [h] s i b hg (Or.inr ⟨h, by simp, hi⟩)
 
 /-- the full statement: any scenario, then Close on everything that was returned -/
 theorem C15_scenario (ops : List ROp) : (closeAll (run RState.init ops)).files = 0 ∧ (closeAll (run RState.init ops)).fds = 0 :=
@@ -258,5 +335,8 @@ theorem C15_scenario (ops : List ROp) : (closeAll (run RState.init ops)).files =
 example : (run RState.init [.newBuilder 4, .write 0 9, .build 0, .openReader]).files = 1 ∧
           (run RState.init [.newBuilder 4, .write 0 9, .build 0, .openReader]).fds = 2 := by decide
 example : (closeAll (run RState.init [.newBuilder 4, .write 0 9, .build 0, .openReader])).fds = 0 := by decide
+-- Close on a builder that has not spilled, a write that spills, Close again: the file exists in between and is gone at the end
+example : (run RState.init [.newBuilder 4, .write 0 2, .close 0, .write 0 9]).files = 1 ∧
+          (run RState.init [.newBuilder 4, .write 0 2, .close 0, .write 0 9, .close 0]).files = 0 := by decide
 
 end Gowarc.Props.C15
